@@ -144,8 +144,9 @@ def gen_case(rng):
     if not edges:
         edges.append((perm[0], perm[1]))
     links = []
+    holder = [rng.random() < 0.3 for _ in range(k)]
     for s, t in edges:
-        links.append(dict(src=[(s, rng.choice(["obj", "attr"]))], tgt=t, param=f"f{s}", fn=rng.random() < 0.4))
+        links.append(dict(src=[(s, rng.choice(["obj", "attr"]))], tgt=t, param=f"f{s}", fn=rng.random() < 0.4, nested=holder[t] and rng.random() < 0.6))
     # sometimes merge two links with the same target into one multi-source link
     by_t = {}
     for l in links:
@@ -156,17 +157,23 @@ def gen_case(rng):
             links.remove(b)
             a["src"] = a["src"] + b["src"]
             a["fn"] = "fn2"
+            if a["nested"] != b["nested"]:
+                a["nested"] = False
     rng.shuffle(links)
     decl = list(range(k))
     rng.shuffle(decl)
     owns = [rng.randrange(1, 9) for _ in range(k)]
-    return dict(k=k, names=names, kinds=kinds, links=links, decl=decl, owns=owns, edges=edges, fail_first=rng.random() < 0.3, topo=perm)
+    return dict(k=k, names=names, kinds=kinds, links=links, decl=decl, owns=owns, edges=edges, fail_first=rng.random() < 0.3, topo=perm, holder=holder)
+
+
+def node_class(case, i):
+    return zoo16.HOLDERS[i] if case.get("holder", [False] * 4)[i] else zoo16.CLASSES[i]
 
 
 def build(case, upto=None):
     p = ArgumentParser(exit_on_error=False)
     for i in case["decl"]:
-        cls, name, kind = zoo16.CLASSES[i], case["names"][i], case["kinds"][i]
+        cls, name, kind = node_class(case, i), case["names"][i], case["kinds"][i]
         if kind == "group":
             p.add_class_arguments(cls, name)
         elif kind == "arg":
@@ -183,7 +190,7 @@ def link_args(case, l):
     for s, how in l["src"]:
         srcs.append(case["names"][s] + (".attr" if how == "attr" else ""))
     t = l["tgt"]
-    tgt = case["names"][t] + ("." if case["kinds"][t] == "group" else ".init_args.") + l["param"]
+    tgt = case["names"][t] + ("." if case["kinds"][t] == "group" else ".init_args.") + ("inner.init_args." if l.get("nested") else "") + l["param"]
     fn = None
     if l["fn"] == "fn2":
         fn = fn2
@@ -202,11 +209,16 @@ def argv_for(case, bad_sink=None):
     for i in range(case["k"]):
         name, kind = case["names"][i], case["kinds"][i]
         own = 13 if i == bad_sink else case["owns"][i]
+        cname = node_class(case, i).__name__
         if kind == "group":
             argv.append(f"--{name}.own={own}")
+            if cname.startswith("H"):
+                argv.append(f"--{name}.inner=vf.fixtures.zoo16.N{i}")
         else:
-            argv.append(f"--{name}=vf.fixtures.zoo16.C{i}")
+            argv.append(f"--{name}=vf.fixtures.zoo16.{cname}")
             argv.append(f"--{name}.init_args.own={own}")
+            if cname.startswith("H"):
+                argv.append(f"--{name}.init_args.inner=vf.fixtures.zoo16.N{i}")
     return argv
 
 
@@ -233,28 +245,42 @@ def e2e_case(ctx, case):
     zoo16.LOG.clear()
     o = call(p.instantiate_classes, cfg)
     if not o.accepted:
-        return (f"e2e/instantiate-failed/{o.exc_type}", dict(case=case, outcome=o.brief(), tb=o.tb))
+        nest = "/with-nested-target" if any(l.get("nested") for l in case["links"]) else ""
+        return (f"e2e/instantiate-failed/{o.exc_type}{nest}", dict(case=case, outcome=o.brief(), tb=o.tb))
     init = o.value
     log = list(zoo16.LOG)
     ctx.count("mon.e2e.instantiations")
     names = [x[0] for x in log]
+    holders = case.get("holder", [False] * 4)
     for i in range(case["k"]):
-        c = names.count(f"C{i}")
-        if c != 1:
-            return (f"e2e/constructed-{'twice' if c > 1 else 'never'}", dict(case=case, log=names))
+        for cn in [node_class(case, i).__name__] + ([f"N{i}"] if holders[i] else []):
+            c = names.count(cn)
+            if c != 1:
+                return (f"e2e/constructed-{'twice' if c > 1 else 'never'}{'/nested' if cn.startswith('N') else ''}", dict(case=case, log=names))
     pos = {n: i for i, n in enumerate(names)}
+    for i in range(case["k"]):
+        if holders[i]:
+            ctx.count("st.e2e.holder_components")
+            if pos[f"N{i}"] > pos[f"H{i}"]:
+                return ("e2e/holder-built-before-its-nested-object", dict(case=case, log=names))
     for l in case["links"]:
         t = l["tgt"]
         tobj = init[case["names"][t]]
-        if not isinstance(tobj, zoo16.CLASSES[t]):
+        if not isinstance(tobj, node_class(case, t)):
             return ("e2e/target-not-instantiated", dict(case=case, got=short(tobj)))
+        tname = node_class(case, t).__name__
+        if l.get("nested"):
+            ctx.count("st.e2e.links_to_nested_target")
+            tobj, tname = tobj.inner, f"N{t}"
+            if not isinstance(tobj, zoo16.NESTED[t]):
+                return ("e2e/nested-target-not-instantiated", dict(case=case, got=short(tobj)))
         vals = []
         for s, how in l["src"]:
             ctx.count("mon.e2e.edges_checked")
-            if pos[f"C{s}"] > pos[f"C{t}"]:
-                return ("e2e/target-built-before-source", dict(case=case, log=names, edge=(s, t)))
+            if pos[node_class(case, s).__name__] > pos[tname]:
+                return (f"e2e/target-built-before-source{'/nested-target' if l.get('nested') else ''}", dict(case=case, log=names, edge=(s, t)))
             sobj = init[case["names"][s]]
-            if not isinstance(sobj, zoo16.CLASSES[s]):
+            if not isinstance(sobj, node_class(case, s)):
                 return ("e2e/source-not-instantiated", dict(case=case, got=short(sobj)))
             vals.append(sobj if how == "obj" else sobj.attr)
         got = tobj.kw[l["param"]]
@@ -273,7 +299,7 @@ def e2e_case(ctx, case):
     # instantiating again gives fresh objects, same order rules (exactly once per call)
     zoo16.LOG.clear()
     o2 = call(p.instantiate_classes, cfg)
-    if not o2.accepted or len(zoo16.LOG) != case["k"]:
+    if not o2.accepted or len(zoo16.LOG) != case["k"] + sum(holders[: case["k"]]):
         return ("e2e/second-instantiate-differs", dict(case=case, outcome=o2.brief(), log=[x[0] for x in zoo16.LOG]))
     # cycle probes on fresh parsers: reversed edges of the transitive closure must be refused
     reach = _closure(case["k"], case["edges"])
